@@ -101,6 +101,7 @@ rx("m13c", "C13", "boolean.go", r"primitiveValidator\(ctx, v\.tests, v\.postTran
 rx("m14a", "C14", "pointers.go", r"\t\tsubCtx\.Data = val\n", "", "factory-once")
 rx("m14b", "C14", "zenv/zenv.go", r"return e\.Get\(key\), key", "return e.Get(fallback), key", "getbyfield-agreement")
 rx("m14c", "C14", "struct.go", r"(ctx\.AddIssue\(ctx\.IssueFromUnknownError\(err\)\)\n\t\t\t)return(\n\t\t\}\n\t\tdataProv = newDp)", "${1}_ = 0${2}", "factory-twins")
+rx("m14z", "C14", "internals/DataProviders.go", r"(m, ok := x\.Interface\(\)\.\(map\[string\]T\)\n\t)if !ok \{", "${1}if ok {", "provider-from-checked-value", "a map of a named type is read as an empty record (survives the whole suite)")
 # ---- C15
 rx("m15a", "C15", "zhttp/zhttp.go", r'case "HEAD":\n\t\treturn Config\.Parsers\.Query\(r\)', 'case "HEAD":\n\t\treturn Config.Parsers.Form(r)', "dispatch-table")
 rx("m15b", "C15", "zhttp/zhttp.go", r'strings\.Cut\(r\.Header\.Get\("Content-Type"\), ";"\)', 'strings.Cut(r.Header.Get("Content-Type"), ",")', "dispatch-table")
